@@ -60,7 +60,7 @@ func VH_C17_BanGate_sym() {
 	}
 }
 
-// Disconnecting a user: removed from the registry, every other user is told the user left, connection closed.
+// Disconnecting a user (whatever its name, the empty name included): removed from the registry, every other user is told the user left, connection closed.
 func VH_C17_DisconnectEffects() {
 	srv, _ := NewServer()
 	srv.Logger = vLogger()
@@ -73,6 +73,7 @@ func VH_C17_DisconnectEffects() {
 	}
 	a, _ := mk()
 	target, tconn := mk()
+	target.UserName = vBytesEach("target_name", 2) // any name, the empty one included
 	b, _ := mk()
 	target.Disconnect()
 	out := vDrainOutbox(srv)
